@@ -124,6 +124,7 @@ type Cluster struct {
 	// ClientWritePoints makes every client-side network write a scheduling point; GateResponses
 	// withholds response bytes until Release is called (partial delivery under explorer control).
 	ClientWritePoints bool
+	AcceptAnyVersion  bool // answer requests at versions outside the advertised range (if decodable) instead of closing
 	Storm             bool // set when a request storm was detected (see serve)
 	stormAt           time.Duration
 	stormN            int
